@@ -507,6 +507,19 @@ def check_fmin_clustering(rep: Rep, pre: str, comp: Competition, label_field: st
             incs = [e for e in comp.events if e.kind == "bind" and e.name == cname]
             inc_ok = (len(incs) == 1 and facts(incs[0].guards) == root_guards and incs[0].aug == "+"
                       and incs[0].target == ("const", 1) and incs[0].seq > own[0].seq)
+            while end is not None and end[0] == "old":
+                end = end[1]  # (the value as computed then; the test it was selected by read a field written later)
+            if not inc_ok and end is not None and end[0] == "sel":
+                # value form (the increment may sit in a helper that returns the new counter): the identifier stored is
+                # the counter as it entered the iteration, and the counter leaves it as  counter + 1 if root else counter
+                phi = ("phi", comp.loop.lid, cname)
+                plus = w.binop("+", phi, ("const", 1))
+                c, a, b = end[1:]
+                own_root = set(root_guards) - set(base_guards)  # the carried value is relative to the loop body
+                if (a, b) == (plus, phi):
+                    inc_ok = set(facts(((c, True),))) == own_root
+                elif (a, b) == (phi, plus):
+                    inc_ok = set(facts(((c, False),))) == own_root
             ok = init == ("const", 0) and inc_ok
             if init != ("const", 0):
                 detail = f"cluster counter starts at {show(init) if init else '?'}, identifiers must be 0..n-1"
